@@ -727,6 +727,22 @@ def rule_r5(chk, db, tier):
             fps = fingerprint(b, s)
             f0 = s["loc"].rsplit(":", 1)[0]
             e = by_fp.get((fps[0], f0)) or by_fp.get((fps[1], f0))
+            if e is None:
+                # the construct was extracted into a helper whose operands are parameters: take the fingerprint where the helper is
+                # inlined into the functions that use it (all of them must lead to the same reviewed entry)
+                try:
+                    ctx = inline.contexts_of(db, b, s["bi"])
+                except Exception:
+                    ctx = []
+                es = []
+                for ib, cbi in ctx:
+                    if ib.blocks[cbi]["term"].get("k") != b.blocks[s["bi"]]["term"].get("k"):
+                        es = [None]
+                        break
+                    f2 = fingerprint(ib, dict(s, bi=cbi, body=ib))
+                    es.append(by_fp.get((f2[0], f0)) or by_fp.get((f2[1], f0)))
+                if es and all(x is not None for x in es) and len({x.get("key") for x in es}) == 1:
+                    e = es[0]
             if e is not None:
                 n_fp += 1
         if e is not None:
